@@ -443,9 +443,10 @@ func (interp *Interpreter) cfg(root *node, sc *scope, importPath, pkgName string
 					return false
 				}
 				switch c.kind {
-				case binaryExpr, unaryExpr, compositeLitExpr:
+				case binaryExpr, unaryExpr, parenExpr, compositeLitExpr:
 					// Do not attempt to propagate composite type to operator expressions,
-					// it breaks constant folding.
+					// it breaks constant folding. The type of a parenthesized expression
+					// is set from its operand at post-order.
 				case keyValueExpr, typeAssertExpr, indexExpr:
 					c.typ = n.typ
 				default:
